@@ -44,6 +44,8 @@ def program(ty, val, pos, pattern):
     decl, setup, root, wrap = matrix.POSITIONS[pos]
     decl = decl.format(T=ty, V=val)
     setup = setup.format(T=ty, V=val)
+    if root == "<LOWPREC>":
+        root = {"i32": "x + 0", "String": "x.clone() + \"\""}[ty]
     pat = wrap.format(P="\n" + pattern + "\n")
     head = (e2e.PRELUDE + matrix.COMMON + decl +
             "\nfn main() { %s let pat = \"^he\"; assert_struct!(%s, " % (setup, root))
@@ -94,7 +96,7 @@ def run(res):
     cells = []
     for (kind, ty, val, pat, frag) in FAULTS:
         for pos in matrix.POSITIONS:
-            if pos in SKIP_POSITIONS:
+            if pos in SKIP_POSITIONS or (pos == "root_lowprec" and ty not in ("i32", "String")):
                 continue
             src, line = program(ty, val, pos, pat)
             cells.append((kind, pos, pat, frag, src, line))
